@@ -30,7 +30,9 @@ def main():
     with open(os.path.join(HERE, "mutants", pid + ".json")) as f:
         mutants = json.load(f)
     os.makedirs(os.path.join(HERE, "mutants", "results"), exist_ok=True)
-    res_path = os.path.join(HERE, "mutants", "results", pid + ".json")
+    # (VERIF_MUT_TAG=seed2 keeps a second record next to the VERIF_SEED=1 one)
+    tag = os.environ.get("VERIF_MUT_TAG")
+    res_path = os.path.join(HERE, "mutants", "results", pid + ("-" + tag if tag else "") + ".json")
     results = {}
     if os.path.exists(res_path):
         with open(res_path) as f:
